@@ -427,6 +427,30 @@ def search(ctx):
     run({}, many, B.rkey(r), 65535, "binary")
     run({}, [({0xC3: b"\x02"}, bytes(r.randrange(256) for _ in range(70001)), 65537, False),
              ({}, b"tail", None, False)], B.rkey(r), 5, "binary")
+    # several objects alive at once, built with DEFAULT arguments (no comments / no components given): editing one of
+    # them must not show up in what another one writes
+    from bec2format.bf3file import Bf3File, Bf3Component
+    for _ in range(ctx.budget(6, 60)):
+        fa, fb, fc = Bf3File(), Bf3File(), Bf3File(components=[Bf3Component({0xC3: b"\x02"}, b"abc")])
+        fa.comments["Creator"] = "object A"
+        fa.components.append(Bf3Component({}, b"A-only"))
+        if r.random() < 0.5:
+            fa.set_config({(0x0620, 0x07): b"\x01", (0x0620, 0x06): b"N"})
+            fa.derive_comments_from_config({(0x0620, 0x07): b"\x01", (0x0620, 0x06): b"N"})
+        fd = Bf3File()          # created after the edits
+        for nm, f, want_cm, want_n in (("B", fb, {}, 0), ("C", fc, {}, 1), ("D", fd, {}, 0)):
+            ctx.case(("default-objects", nm))
+            key = B.rkey(r)
+            held = (dict(f.comments), len(f.components))
+            if held != (want_cm, want_n):
+                ctx.fail("bf3-layout", {"mode": "default-objects", "object": nm, "holds": repr(held)},
+                         "a Bf3File built with default arguments holds %r after ANOTHER object was edited (expected %r)"
+                         % (held, (want_cm, want_n)))
+                break
+            why, _, _ = write_and_judge(f, None, key, 5, "text", ciph)
+            if why:
+                ctx.fail("bf3-layout", {"mode": "default-objects", "object": nm}, why)
+                break
     # object histories: one live Bf3File / Bec2File, written 2-5 times with edits in between
     for i in range(ctx.budget(60, 1200) * (4 if ctx.brokens else 1)):
         modes = (["binary", "text"], ["binary"], ["bec2", "bec2text", "binary", "text"], ["bec2"])[i % 4]
@@ -465,6 +489,16 @@ def replay(ctx, data):
         d = f["data"]
         print(f["kind"], f["detail"][:400])
         try:
+            if d.get("mode") == "default-objects":
+                from bec2format.bf3file import Bf3File, Bf3Component
+                fa, fb = Bf3File(), Bf3File()
+                fa.comments["Creator"] = "object A"
+                fa.components.append(Bf3Component({}, b"A-only"))
+                fd = Bf3File()
+                held = [(dict(x.comments), len(x.components)) for x in (fb, fd)]
+                print(" two objects built with default arguments, after another one was edited, hold:", held)
+                rc |= held != [({}, 0), ({}, 0)]
+                continue
             comps = [({int(k): bytes.fromhex(v["hex"]) for k, v in c[0].items()}, bytes.fromhex(c[1]["hex"]), c[2], c[3])
                      for c in d["comps"]]
             key = bytes.fromhex(d["key"]["hex"]) if "key" in d else None
